@@ -38,6 +38,7 @@ fn main() {
         "c03" => props::chain::run(&cfg, props::chain::Which::C03),
         "c05" => props::chain::run(&cfg, props::chain::Which::C05),
         "c19" => props::c19::run(&cfg),
+        "c20" => props::c20::run(&cfg),
         _ => { eprintln!("unknown property {}", prop); std::process::exit(2); }
     };
     if let Some(dir) = std::path::Path::new(&cfg.out).parent() {
